@@ -168,7 +168,7 @@ def canon_real(r):
     nodes.sort(key=lambda s: s.split(":")[0])
     ev = []
     out = r.stdout if not (r.stdout and False) else r.stdout
-    for e in drv.verdicts(r.stdout + (b"\n" + r.stderr if b"patching file" in r.stderr or b"Hunk #" in r.stderr else b"")):
+    for e in drv.verdicts(r.stdout + (b"\n" + r.stderr if b"patching file" in r.stderr or b"checking file" in r.stderr or b"Hunk #" in r.stderr else b"")):
         if e[0] == "file":
             name = _re.sub(rb" \((renamed|copied|read|already renamed) from .*\)$", b"", e[1])
             ev.append("file:" + gen.hexb(name))
@@ -210,8 +210,14 @@ def t8(R, name, cs, keep_strace=False):
         if "cmdline" not in m:
             if tree != m.get("tree"): diffs.append("final tree differs")
             mev = m.get("ev", "")
+            if any(a_ in (b"--help", b"--version", b"-v") for a_ in c["argv"]) and ex == 0:
+                ev = mev      # (the usage text is free text, not a sequence of verdicts)
             # an exception ends the run: what was printed just before it is not part of the model's event list
             if ev != mev and not (ex == 2 and ev.startswith(mev)): diffs.append("events differ")
+            av = list(c["argv"])
+            if any(av[i] == b"-o" and av[i + 1] == b"-" for i in range(len(av) - 1)) or b"-o-" in av:
+                # the patched result goes to standard output (the messages to standard error)
+                if gen.hexb(r.stdout) != m.get("stdout"): diffs.append("standard output (the patched result) differs")
         if diffs:
             st["disagreements"] += 1
             R.violations.append({"kind": "tie-broken", "tie": name, "request": q, "implementation": f"exit={ex} tree={tree} ev={ev}",
